@@ -32,7 +32,7 @@ REGISTRY["C10"] = rc_property(
         "occa::null counts as a memory object without element type",
         "LeakSanitizer off (the OKL parser leaks AST nodes on every parse; not part of this property); ASan/UBSan on",
     ],
-    env_fn=lambda wd: {"VERIF_C10_DIR": wd, "ASAN_OPTIONS": _ASAN}, timeout=7200)
+    env_fn=lambda wd: {"VERIF_C10_DIR": wd, "ASAN_OPTIONS": _ASAN}, timeout=50000)
 
 m("C10", "exploration",
   "Property-based differential test of kernel argument validation: generated OKL signatures (primitive, vector, struct, "
